@@ -14,7 +14,8 @@ const NAME_CHARS: &[char] = &[
 ];
 
 pub fn gen_string(src: &mut Src) -> String {
-    let n = src.weighted(&[8, 35, 30, 15, 8, 4]);
+    // rarely a long string (beyond 255 / 256 / 1024 characters)
+    let n = if src.chance(1, 300) { *src.pick(&[255usize, 256, 257, 1025]) } else { src.weighted(&[8, 35, 30, 15, 8, 4]) };
     (0..n)
         .map(|_| {
             if src.chance(2, 3) {
@@ -136,7 +137,7 @@ pub fn gen_selector(src: &mut Src, lim: &Lim) -> Sel {
 pub fn gen_segment(src: &mut Src, lim: &Lim) -> Seg {
     let desc = src.chance(1, 5);
     // rarely a very long union (beyond 8 / 16 / 32 / 64 selectors)
-    let n = if src.chance(1, 150) { *src.pick(&[9usize, 17, 33, 65]) } else { src.weighted(&[75, 18, 7]) + 1 };
+    let n = if src.chance(1, 150) { *src.pick(&[9usize, 17, 33, 65, 129, 257]) } else { src.weighted(&[75, 18, 7]) + 1 };
     let sels: Vec<Sel> = (0..n).map(|_| gen_selector(src, lim)).collect();
     let mut seg = Seg { desc, sels, dot: false };
     if seg.can_dot() && src.chance(2, 3) {
@@ -147,7 +148,7 @@ pub fn gen_segment(src: &mut Src, lim: &Lim) -> Seg {
 
 pub fn gen_segments(src: &mut Src, lim: &Lim, max: usize) -> Vec<Seg> {
     // rarely a very long chain of segments
-    let n = if max >= 5 && src.chance(1, 150) { *src.pick(&[9usize, 17, 33, 65]) } else { src.weighted(&[10, 35, 30, 15, 7, 3]).min(max) };
+    let n = if max >= 5 && src.chance(1, 150) { *src.pick(&[9usize, 17, 33, 65, 129, 257]) } else { src.weighted(&[10, 35, 30, 15, 7, 3]).min(max) };
     (0..n).map(|_| gen_segment(src, lim)).collect()
 }
 
